@@ -19,6 +19,7 @@ EXPLANATION = (
     "argument; (6) every constructor in the Duration hierarchy that does not chain to Duration.__new__ sets "
     "the private attributes the operator helpers read. NOT decided: the clamp table values (C15), "
     "normalisation in gaps/overlaps (C02)."
+    ' Also: the DAYS_PER_MONTHS rows / is_leap rule the clamp relies on, and the weeks/remaining_days breakdown of Duration.__new__ that `+ Duration` consumes.'
 )
 
 COMP = {  # add()/subtract() parameter -> Duration accessor
